@@ -47,7 +47,18 @@ Stages == {"tls-accept", "tls-greeting", "tls-greeting-reset", "tls-garbage", "t
            "ssh-subsystem-drop", "ssh-subsystem-close", "ssh-subsystem-refuse", "ssh-subsystem-ok-close",
            "local-exit", "local-stderr", "local-garbage"}
 F7 == {Case(<<<<"x">>>>, {}, "none", -1, {}, st, 0) : st \in Stages}
-Cases == CASE Family = "F7" -> F7 [] Family = "F6" -> F6 [] Family = "F1" -> F1 [] Family = "F2" -> F2 [] Family = "F3" -> F3
+(* Junos writes a line feed after every end-of-message marker: it arrives as the first byte of the next message *)
+(* (the first of the five start-tag symbols), so one cut position separates it from the "<" that follows          *)
+CaseSep(bodies, cuts) == [bodies |-> bodies, cuts |-> SetToSeq(cuts), close |-> "none", close_at |-> -1,
+                          hello_cuts |-> <<>>, hello_close |-> "none", hello_close_at |-> -1, sep |-> "nl"]
+F8 == UNION {{CaseSep(<<ab[1], ab[2]>>, c) : c \in SubsetsUpTo(1..(Len1(ab[1]) + Len1(ab[2]) - 1), 1)} : ab \in {<<"x">>, <<"]", "]", ">">>} \X {<<"x">>}}
+(* messages whose length (marker included) is a multiple of the sizes code reads and buffers by *)
+Sizes == {"A1024", "A4096", "A8192", "A16384", "A32768", "A65536"}
+F9 == {Case(<<<<a>>>>, {}, "none", -1, {}, "none", -1) : a \in Sizes}
+      \cup UNION {{Case(<<<<a>>, <<"x">>>>, c, "none", -1, {}, "none", -1) : c \in {{}, {Len1(<<a>>)}}} : a \in {"A4096", "A16384"}}
+      \cup {Case(<<<<"A1500">>, <<"A2596">>>>, {}, "none", -1, {}, "none", -1), Case(<<<<"A4000">>, <<"A4192">>>>, {}, "none", -1, {}, "none", -1),
+            Case(<<<<"x">>, <<"A8192">>>>, {Len1(<<"x">>)}, "none", -1, {}, "none", -1)}
+Cases == CASE Family = "F7" -> F7 [] Family = "F8" -> F8 [] Family = "F9" -> F9 [] Family = "F6" -> F6 [] Family = "F1" -> F1 [] Family = "F2" -> F2 [] Family = "F3" -> F3
            [] Family = "F4" -> F4 [] Family = "F5" -> F5
 ASSUME PrintT(<<"GEN", ToJson([cases |-> Cases])>>)
 VARIABLE dummy
